@@ -37,16 +37,18 @@ static std::string ref_collapse(const std::vector<std::string> &comps)
 static void part_collapse(int maxn)
 {
     if(!replay_part("A|")) { return; }
-    static const char *alpha[4] = {"a", "bb", "..", "c.."};
+    // component names of unequal lengths (a removed pair can be shorter or much longer than what has to move over it)
+    static const char *alpha[6] = {"a", "bb", "..", "c..", "instrument", "a_component_of_32_characters_xyz"};
+    const int NALPHA = 6;
     for(int n = 1; n <= maxn; ++n) {
-        uint64_t total = 1; for(int k = 0; k < n; ++k) total *= 4;
+        uint64_t total = 1; for(int k = 0; k < n; ++k) total *= NALPHA;
         for(uint64_t idx = 0; idx < total; ++idx, ++g_top) {
             if(!vp::mine(g_top)) continue;
             for(int trailing = 0; trailing < 2; ++trailing) {
                 std::string cid = "A|" + std::to_string(n) + "|" + std::to_string(idx) + "|" + std::to_string(trailing);
                 if(!vp::want(cid)) continue;
                 vp::current_case() = cid;
-                std::vector<std::string> comps(n); { uint64_t r = idx; for(int k = n - 1; k >= 0; --k) { comps[k] = alpha[r % 4]; r /= 4; } }
+                std::vector<std::string> comps(n); { uint64_t r = idx; for(int k = n - 1; k >= 0; --k) { comps[k] = alpha[r % NALPHA]; r /= NALPHA; } }
                 std::string path; for(auto &c : comps) path += "/" + c;
                 if(trailing) path += "/";
                 const std::string want = ref_collapse(comps);
@@ -336,10 +338,12 @@ static void part_search(int maxk)
                     Reply first; bool array_ok = true;
                     for(int pre = 0; pre < 2; ++pre) {
                         std::vector<char> lbuf(1 + loc.size() + 1 + 4, 'X'); lbuf[0] = pre ? '/' : 'X'; memcpy(lbuf.data() + 1, loc.c_str(), loc.size() + 1);
+                        // the empty needle is also passed as nullptr ("use empty-string or nullptr to match everything") on every second pass
+                        const bool null_needle = needle.empty() && pre == 1;
                         char *nbuf = (char *)malloc(needle.size() + 1); memcpy(nbuf, needle.c_str(), needle.size() + 1);
                         char *types = (char *)malloc(max_types); memset(types, 'Z', max_types);
                         rtosc_arg_t *args = (rtosc_arg_t *)malloc(max_args * sizeof(rtosc_arg_t)); memset(args, 0x5A, max_args * sizeof(rtosc_arg_t));
-                        rtosc::path_search(*pl.root, lbuf.data() + 1, nbuf, types, max_types, args, max_args, o, rq);
+                        rtosc::path_search(*pl.root, lbuf.data() + 1, null_needle ? nullptr : nbuf, types, max_types, args, max_args, o, rq);
                         vp::transition();
                         Reply rep;
                         size_t tl = strnlen(types, max_types);
@@ -351,8 +355,9 @@ static void part_search(int maxk)
                                 // the library stores the caller's pointers; anything else is not dereferenced here
                                 rep.has_query = true; p = 2;
                                 rep.q0 = args[0].s == lbuf.data() + 1 ? loc : "<not the location pointer>";
-                                rep.q1 = args[1].s == nbuf ? needle : "<not the needle pointer>";
-                                rep.query_ok = args[0].s == lbuf.data() + 1 && args[1].s == nbuf;
+                                const bool q1ok = null_needle ? (args[1].s != nullptr && args[1].s[0] == 0) : args[1].s == nbuf;      // nullptr is echoed as an empty string
+                                rep.q1 = q1ok ? needle : "<not the needle pointer>";
+                                rep.query_ok = args[0].s == lbuf.data() + 1 && q1ok;
                             }
                             if(!rep.query_ok) p = ts.size();   // the pairs behind a displaced query are not looked at
                             if(rep.query_ok && (ts.size() - p) % 2) { rep.wellformed = false; rep.why = "type string '" + ts + "' is not a sequence of 'sb' pairs"; }
@@ -446,7 +451,7 @@ int main(int argc, char **argv)
     const bool T = vp::thorough();
     build_meta();
     const int maxn = T ? 9 : 6, max_root = 3, max_sub = T ? 3 : 2, maxk = T ? 6 : 3;
-    vp::bound("collapsePath", "all absolute paths of 1.." + std::to_string(maxn) + " components over {a, bb, .., c..}, with and without trailing '/'");
+    vp::bound("collapsePath", "all absolute paths of 1.." + std::to_string(maxn) + " components over {a, bb, .., c.., instrument, a_component_of_32_characters_xyz}, with and without trailing '/'");
     vp::bound("apropos", "root tables = ordered selections of 0.." + std::to_string(max_root) + " of 9 entries (5 leaves a ab:i b::f c/d: e#2:i, 4 sub-trees s/ t/u/ v#2/ a/), every sub-tree with every ordered selection of 0.." +
                          std::to_string(max_sub) + " of {x, xy:i, y::i:f, z/{w k#2::i}}; trees violating the side condition are skipped");
     vp::bound("path_search", "tables = all sequences of 0.." + std::to_string(maxk) + " names over {a ab a/ a/b a/bc:i b b/} (duplicates allowed), metadata rotating over 10 blocks of 0..11 bytes; locations '' '/' '/s/' '/s' 's/' '/leaf' '/nope'; "
